@@ -162,6 +162,35 @@ func genImage(t *sim.Tape) *imgFile {
 	w, h := 1+t.Size(40), 1+t.Size(40)
 	seed := uint64(t.Draw(1 << 30))
 	px := sim.GenBytes(seed, w*h*4, t.Draw(6))
+	switch t.Pick(3, 3, 2) {
+	case 1:
+		// natural-looking content: per-channel gradients plus a little noise
+		// (what makes an encoder choose the Sub / Up / Average / Paeth filters)
+		noise := sim.GenBytes(seed^0x9e3779b9, w*h*4, sim.PayRandom)
+		amp := 1 + t.Draw(4)
+		var ax, ay, c0 [4]int
+		for c := 0; c < 4; c++ {
+			ax[c], ay[c], c0[c] = t.Draw(7)-3, t.Draw(7)-3, t.Draw(256)
+		}
+		for y := 0; y < h; y++ {
+			for x := 0; x < w; x++ {
+				for c := 0; c < 4; c++ {
+					i := (y*w+x)*4 + c
+					v := c0[c] + ax[c]*x + ay[c]*y + int(noise[i])%(2*amp+1) - amp
+					px[i] = uint8(v & 0xFF)
+				}
+			}
+		}
+	case 2:
+		// flat blocks with sharp edges
+		bw, bh := 1+t.Draw(6), 1+t.Draw(6)
+		for y := 0; y < h; y++ {
+			for x := 0; x < w; x++ {
+				j := ((y/bh)*((w+bw-1)/bw) + x/bw) * 4
+				copy(px[(y*w+x)*4:(y*w+x)*4+4], []byte{px[j%len(px)] & 0xF0, px[(j+1)%len(px)] & 0xF0, px[(j+2)%len(px)] & 0xF0, px[(j+3)%len(px)] | 0x0F})
+			}
+		}
+	}
 	bgra := func(c color.Color) []byte {
 		n := color.NRGBAModel.Convert(c).(color.NRGBA)
 		return []byte{n.B, n.G, n.R, n.A}
